@@ -66,6 +66,8 @@ type Payload struct {
 	Label   string
 	HasNext *bool
 	ParseOK bool
+	// Extensions: number of entries of the payload's extensions member
+	Extensions int
 }
 
 type Real struct {
@@ -136,7 +138,7 @@ func (s *Server) Run(ctx context.Context, run *univ.Run, query, opName string, v
 			if resp == nil {
 				return
 			}
-			p := &Payload{Label: resp.Label, HasNext: resp.HasNext, Errors: convErrors(resp.Errors)}
+			p := &Payload{Label: resp.Label, HasNext: resp.HasNext, Errors: convErrors(resp.Errors), Extensions: len(resp.Extensions)}
 			for _, e := range resp.Path {
 				switch v := e.(type) {
 				case ast.PathName:
